@@ -91,6 +91,11 @@ int muggle_str_count(const char *str, const char *sub, int start, int end)
 	size_t str_len = strlen(str);
 	size_t sub_len = strlen(sub);
 
+	if (sub_len == 0)
+	{
+		return 0;
+	}
+
 	if (start < 0 || end < 0)
 	{
 		return 0;
